@@ -49,8 +49,19 @@ fn size_matching(size: &Size) -> String {
     }
 }
 
-fn compile_size_comp(buffer: &mut String, comp: &Comparison<Size>) {
+fn compile_size_comp(buffer: &mut String, comp: &Comparison<Size>) -> CResult {
+    // The parser refuses such sizes, but the AST can be built by hand
+    let (Comparison::GreaterThan(size) | Comparison::LesserThan(size) | Comparison::Equal(size)) =
+        comp;
+    if size.checked_byte_size().is_none() {
+        return Err(CompileError::UnsupportedTest(format!(
+            "{size:?} overflows the byte count"
+        )));
+    }
+
     buffer.push_str(&format_cmp!(comp, size_matching, Size::byte_size));
+
+    Ok(())
 }
 
 fn compile_time_comp(buffer: &mut String, field: &str, comp: &Comparison<TimeSpec>) {
@@ -294,7 +305,7 @@ impl TargetScheme for Test {
             Test::Perm(check) => compile_perm_check(buffer, check),
             Test::Pool(pool_name) => buffer.push_str(&format!("(member \"{}\" (lov-pools))", escape_string(pool_name))),
             Test::Readable => buffer.push_str("(readable)"),
-            Test::Size(cmp) => compile_size_comp(buffer, &cmp),
+            Test::Size(cmp) => compile_size_comp(buffer, &cmp)?,
             Test::StripeCount(cmp) => buffer.push_str(&format_cmp!(cmp, "lov-stripe-count")),
             Test::True => buffer.push_str("#t"),
             Test::Type(list) => compile_type_list_comp(buffer, list),
